@@ -69,6 +69,8 @@ type World struct {
 	Filters map[string]any
 	// Names maps concrete resource names to model names.
 	ModelName map[string]string
+	// ModelProj maps concrete project ids to model project ids.
+	ModelProj map[string]string
 	closeOnce sync.Once
 }
 
@@ -377,10 +379,13 @@ type State struct {
 	Snaps  []PSnap  `json:"snaps"`
 }
 
-func projOf(real string) string {
+func (w *World) projOf(real string) string {
 	// projects/<p>/<kind>/<name>
 	parts := splitN(real, '/', 4)
 	if len(parts) >= 2 {
+		if m, ok := w.ModelProj[parts[1]]; ok {
+			return m
+		}
 		return parts[1]
 	}
 	return ""
@@ -510,7 +515,7 @@ func (w *World) Project(ctx context.Context) (*State, error) {
 			w.topicID[id] = n
 		}
 		w.mu.Unlock()
-		st.Topics = append(st.Topics, PTopic{ID: n, Name: w.modelName(name), Proj: projOf(name), Real: name, UUID: id,
+		st.Topics = append(st.Topics, PTopic{ID: n, Name: w.modelName(name), Proj: w.projOf(name), Real: name, UUID: id,
 			Live: live.Valid && live.Bool && !del.Valid, DelAt: w.tuOrNeg(del), Labels: labelsOf(labels)})
 	}
 	rows.Close()
@@ -554,7 +559,7 @@ func (w *World) Project(ctx context.Context) (*State, error) {
 				f = map[string]any{"op": "unknown", "text": filt.String}
 			}
 		}
-		ps := PSub{ID: n, Name: w.modelName(name), Proj: projOf(name), Real: name, UUID: id, Topic: tn,
+		ps := PSub{ID: n, Name: w.modelName(name), Proj: w.projOf(name), Real: name, UUID: id, Topic: tn,
 			Live: live.Valid && live.Bool && !del.Valid, DelAt: w.tuOrNeg(del), Exp: w.tuOrNeg(exp),
 			TTL: DurTU(parseIv(ttl)), MTTL: DurTU(parseIv(mttl)), Ord: ord.Valid && ord.Bool, Filt: f,
 			MinB: DurTU(parseIv(minB)), MaxB: DurTU(parseIv(maxB)), DLT: dn, MaxAtt: int(maxAtt.Int64),
@@ -630,7 +635,7 @@ func (w *World) Project(ctx context.Context) (*State, error) {
 		w.mu.Lock()
 		tn := w.topicID[topic]
 		w.mu.Unlock()
-		st.Snaps = append(st.Snaps, PSnap{Name: w.modelName(name), Proj: projOf(name), Topic: tn, Real: name})
+		st.Snaps = append(st.Snaps, PSnap{Name: w.modelName(name), Proj: w.projOf(name), Topic: tn, Real: name})
 	}
 	rows.Close()
 	sort.SliceStable(st.Del, func(i, j int) bool { return st.Del[i].N < st.Del[j].N })
